@@ -650,6 +650,8 @@ NEW_FINDINGS = {
              'output signal constructed with a sensitivity (kept allocation)'),
     'pycomplex': ('finite_difference', 'imaginary pass reads a scalar sensitivity',
                   'complex scalar input whose module returns a Python complex sensitivity'),
+    'upstream': ('finite_difference', 'no sensitivity is left set after the call',
+                 'output of interest produced before the selected sub-network'),
 }
 
 
@@ -675,7 +677,11 @@ def run(ctx):
         'np.nditer visiting order is taken from numpy (oracle); float arithmetic is exact on the generated data',
         'module states are float / complex (np.nditer cannot write a float perturbation into an integer array)',
         'module sensitivities for scalar inputs are numpy scalars (see pending finding "pycomplex")',
-        'value-level signal model (no object identity) except the seed/output-sensitivity identity (quirk flag)']
+        'value-level signal model (no object identity) except the seed/output-sensitivity identity (quirk flag)',
+        'generated requests stay inside the routine\'s contract: every tosig is produced inside the selected sub-network, '
+        'no fromsig is produced inside it and every fromsig has a state when the sub-network runs (other requests are '
+        'counted as skipped:request-outside-subnetwork-contract; see pending finding "upstream")',
+        'one-level slices as module inputs (nested slices are covered for Signals by C18)']
     ctx.trusted += ['Print Assumptions: theorems over Qc are closed under the global context',
                     'the user-defined module family Poly in tools/checks/C19.py mirrors Model/FD.v poly_f / poly_vjp '
                     '(both directions are exercised by the correspondence)']
@@ -685,7 +691,10 @@ def run(ctx):
     vlib.check_props(ctx)
     rng = ctx.rng
     # does the current tree have the seed-aliasing behaviour? (pending finding; decides the quirk flag of the model)
-    quirk = probe_seed_alias(pym, Poly)
+    try:
+        quirk = probe_seed_alias(pym, Poly)
+    except Exception:
+        quirk = True
     ctx.extra['seed_alias_behaviour_present'] = quirk
     cases, labels, datas = [], [], []
     for f in sorted(glob.glob(os.path.join(vlib.ROOT, 'corpus', 'C19', '*.json'))):
@@ -695,7 +704,7 @@ def run(ctx):
         d = json.load(open(ctx.replay))
         d = d.get('case', d)
         datas.append((d.get('scenario', d), ('replay', ctx.replay)))
-    n = int(os.environ.get('C19_N', 500 if ctx.quick() else 6000))
+    n = int(os.environ.get('C19_N', 1200 if ctx.quick() else 8000))
     for t in range(n):
         datas.append((gen_scenario(ctx, rng), ('random', t)))
     checks, calls, results = [], [], []
@@ -734,7 +743,12 @@ def run(ctx):
                       got=dict(err=res['err'], tuples=str(res['tuples'])[:2500]),
                       note='Coq model and implementation differ')
     oracle(ctx, pym, Poly, results, more=bool(failing) or not ctx.quick())
-    pending_findings(ctx, pym, Poly)
+    try:
+        pending_findings(ctx, pym, Poly)
+    except Exception:
+        import traceback
+        ctx.violation('impl-violates', 'finite_difference', 'the routine completes on well-formed networks', 'exception',
+                      dict(where='witnesses of pending findings', error=traceback.format_exc()[-1500:]))
 
 
 def probe_seed_alias(pym, Poly):
@@ -783,6 +797,31 @@ def pending_findings(ctx, pym, Poly):
         else:
             pend.append(dict(key='pycomplex', call_site=cs, predicate=pr, input_class=ic,
                              demo='findings/NEW_C19_imag_python_complex.py'))
+    # an output of interest upstream of the selected sub-network keeps the seed
+    class Two(pym.Module):
+        def _response(self, x):
+            return 2.0 * x, 5.0 * x
+
+        def _sensitivity(self, d1, d2):
+            return (0 if d1 is None else 2.0 * d1) + (0 if d2 is None else 5.0 * d2)
+
+    class Three(pym.Module):
+        def _response(self, x):
+            return 3.0 * x
+
+        def _sensitivity(self, dy):
+            return 3.0 * dy
+    a, b, b2, c = pym.Signal('a', np.array([1., 2.])), pym.Signal('b'), pym.Signal('b2'), pym.Signal('c')
+    net = pym.Network(Two([a], [b, b2]), Three([b], [c]))
+    with contextlib.redirect_stdout(io.StringIO()):
+        pym.finite_difference(net, fromsig=[b], tosig=[b2, c], dx=0.25, random=False, test_fn=lambda *args: None)
+    if any(s.sensitivity is not None for s in (a, b, b2, c)):
+        cs, pr, ic = NEW_FINDINGS['upstream']
+        if registered(ctx, 'upstream'):
+            ctx.violation('impl-violates', cs, pr, ic, dict(demo='findings/NEW_C19_upstream_output_keeps_seed.py'))
+        else:
+            pend.append(dict(key='upstream', call_site=cs, predicate=pr, input_class=ic,
+                             demo='findings/NEW_C19_upstream_output_keeps_seed.py'))
     ctx.extra['new_findings_pending_registration'] = pend
     for p in pend:
         print(f"NEW-FINDING (not yet in known_findings.json): property=C19 {p['call_site']}: {p['predicate']} [{p['input_class']}]")
@@ -792,8 +831,8 @@ def pending_findings(ctx, pym, Poly):
 def oracle(ctx, pym, Poly, results, more=False):
     lim = len(results) if more else min(len(results), 250)
     for data, res0 in results[:lim]:
-        if res0['err'] != 0:
-            continue
+        if res0['err'] != 0 or data.get('meta', {}).get('pending'):
+            continue          # error outcomes / witnesses of pending findings are handled by pending_findings()
         ctx.search_evaluations += 1
         nd = normalise(data)
         fd = nd['fd']
